@@ -22,7 +22,7 @@ def _short(x, n=160):
 
 
 class Loc:
-    __slots__ = ('state', 'stage', 'stage_exact', 'tainted', 'writer', 'key', 'err_dir', 'kind', 'slug', 'last_run', 'steps', 'fail_partial')
+    __slots__ = ('state', 'stage', 'stage_exact', 'tainted', 'writer', 'key', 'err_dir', 'kind', 'slug', 'last_run', 'steps', 'fail_partial', 'tree')
 
     def __init__(self, kind, slug, steps=0):
         self.state = 'absent'      # absent | complete | indoubt
@@ -37,6 +37,7 @@ class Loc:
         self.last_run = None       # dict: run record of the last successful run (for C18)
         self.steps = steps
         self.fail_partial = False
+        self.tree = None
 
 
 class Obj:
@@ -67,9 +68,13 @@ class Judge:
         self.abstract_states = []
         self.proc = None
         self.cur_multi = False
+        self.muted = False
+        self.key_tree = {}
 
     # ------------------------------------------------------------------ helpers
     def disc(self, prop, inv, i, msg, **detail):
+        if self.muted:
+            return      # operations executed by the frozen earlier release: only their effect on the store matters
         self.discs.append(Disc(prop=prop, inv=inv, op=i, msg=msg, detail=detail))
         if self.cur_multi and prop in ('C01', 'C02', 'C04'):
             # a member chain of a MultiChain must behave as the standalone chain of its config (C13)
@@ -97,7 +102,8 @@ class Judge:
         for o in obs:
             by_i[o['i']] = o
         for pi, proc in enumerate(self.scn['procs']):
-            self.proc = {'chains': {}, 'objs': {}, 'faults': {}, 'multis': {}, 'dead': False,
+            self.muted = bool(proc.get('tree'))
+            self.proc = {'chains': {}, 'objs': {}, 'faults': {}, 'multis': {}, 'dead': False, 'tree': proc.get('tree'),
                          'index': pi, 'logger_dirty': set()}
             for op in proc['ops']:
                 o = by_i.get(op['i'])
@@ -145,6 +151,10 @@ class Judge:
                 first = self.key_of_D.get(it.D)
                 if first is None:
                     self.key_of_D[it.D] = d['key']
+                    self.key_tree[it.D] = self.proc.get('tree')
+                elif first != d['key'] and self.key_tree.get(it.D) and not self.proc.get('tree'):
+                    self.disc('C12', 'I-scheme', op['i'], f'{name}: storage key differs from the one release 1.4.0 derives for this computation',
+                              v140=first, now=d['key'])
                 elif first != d['key']:
                     self.disc('C02', 'I-location', op['i'], f'{name}: same computation, different storage key', first=first, now=d['key'],
                               render=render, hs=self.scn['procs'][self.proc['index']].get('hs'))
@@ -215,6 +225,12 @@ class Judge:
         ev = Eval(self, chain, op, o)
         outcome = ev.request(name)
         ev.finish(outcome, name, res, crash, diskerr)
+        if op.get('mutate') and res.get('mutated'):
+            # the caller scribbled over the value object: every chain of this process that shares that task object is
+            # dead to the oracle from here on (its in-memory values are the caller's business)
+            tok = chain['tok'][name]
+            for cid in [c for c, ch in self.proc['chains'].items() if tok in ch['tok'].values()]:
+                self.proc['chains'].pop(cid)
 
     # ------------------------------------------------------------------ inspect
     def j_insp(self, op, o):
@@ -291,6 +307,9 @@ class Judge:
             elif chain.get('forced_ctx'):
                 prop = 'C07'
                 msg = 'has_data after forcing'
+            elif not got and loc.tree:
+                prop = 'C12'
+                msg = 'result stored by release 1.4.0 is not found by the current tree (orphaned)'
             else:
                 prop = 'C01' if got else 'C04'
                 msg = 'has_data reports a result nobody stored for this computation' if got else 'stored result not found (would be recomputed)'
@@ -314,10 +333,11 @@ class Judge:
         if loc.state != 'complete' or lr is None or loc.tainted or not lr.get('valid'):
             return
         self.stats['records_checked'] += 1
+        rprop = 'C12' if loc.tree else 'C18'
         if kind == 'log':
             exp = lr['log']
             if got is None:
-                self.disc('C18', 'I-records', op['i'], f'{name}: no log after a successful run', expected=exp)
+                self.disc(rprop, 'I-records', op['i'], f'{name}: no log beside the result', expected=exp)
                 return
             # first line "<task> - run started with params: ...", last "<task> - run ended"; in between exactly this run's messages
             body = got[1:-1] if len(got) >= 2 else None
@@ -327,7 +347,7 @@ class Judge:
                           got=got[:12], expected_body=exp, run=lr['run'])
         else:
             if not isinstance(got, dict):
-                self.disc('C18', 'I-records', op['i'], f'{name}: no run info after a successful run', got=got)
+                self.disc(rprop, 'I-records', op['i'], f'{name}: no run info beside the result', got=got)
                 return
             problems = []
             if (got.get('task') or {}).get('name') != it.slug:
@@ -538,7 +558,7 @@ def _is_work_path(rel):
 
 def _plain(v):
     if isinstance(v, dict):
-        return 'class' not in v and all(_plain(x) for x in v.values())
+        return 'class' not in v and '$intkeys' not in v and all(_plain(x) for x in v.values())
     if isinstance(v, list):
         return all(_plain(x) for x in v)
     return True
@@ -687,6 +707,7 @@ class Eval:
             loc.writer = it.D
             loc.stage = 0
             loc.stage_exact = True
+            loc.tree = j.proc.get('tree')
         ob.mem = True
         self._record_run(name, it, loc, chain, rec)
         return 'ok'
@@ -713,6 +734,9 @@ class Eval:
 
     def _failed(self, it, ob, loc, started, set_aside=True):
         ob.mem = False
+        if loc is not None and started and loc.last_run:
+            # a failed attempt has rewritten the log; the property speaks about records after a successful run only
+            loc.last_run = dict(loc.last_run, valid=False)
         if loc is not None and it.kind == 'dir' and started:
             loc.err_dir = True
 
@@ -740,6 +764,17 @@ class Eval:
         return None
 
     # ---------------------------------------------------------------- comparison
+    def _old_tree(self, idents):
+        """some of these runs recomputed a result that the earlier release had stored"""
+        chain = self.chain
+        for (slug, key) in idents:
+            for n, it in chain['insts'].items():
+                if it.slug == slug and it.kind not in PERSIST_NONE:
+                    loc = self.j.loc(chain, it)
+                    if loc.tree and loc.state == 'complete':
+                        return True
+        return False
+
     def _forced_names(self, idents):
         chain = self.chain
         out = []
@@ -793,6 +828,8 @@ class Eval:
                     prop = 'C05'
                 elif self._forced_names(extra):
                     prop = 'C07'
+                elif self._old_tree(extra):
+                    prop = 'C12'
                 else:
                     prop = 'C04'
                 j.disc(prop, 'I-runs', op['i'], f'request of {name}: run executed although not needed: {[e[0] for e in extra]}', got=got_inv, predicted=pred_inv)
